@@ -43,13 +43,31 @@ def sh(cmd, cwd=None, timeout=None, env=None, input=None):
 
 
 class CoqLock:
+    """exclusive lock(s) on parts of the Coq tree.  CoqLock() is the global lock (Makefile, _CoqProject,
+    Common/); CoqLock(files=[...]) locks the per-property directories those .v files live in (taken in
+    sorted order, so two checks never deadlock), so checks of different properties build concurrently."""
+    def __init__(self, files=None):
+        names = set()
+        for f in files or []:
+            rel = os.path.relpath(os.path.abspath(f), COQ).split(os.sep)
+            top = rel[0]
+            if top == "Gen":
+                top = rel[-1].split("_")[0]
+            m = re.match(r"(?:Properties_|Extract_)?(C\d\d)", top)
+            names.add(m.group(1) if m else "global")
+        self.names = sorted(names) if files is not None else ["global"]
+
     def __enter__(self):
-        self.fh = open(os.path.join(COQ, ".lock"), "w")
-        fcntl.flock(self.fh, fcntl.LOCK_EX)
+        self.fhs = []
+        for n in self.names:
+            fh = open(os.path.join(COQ, ".lock" if n == "global" else ".lock-" + n), "w")
+            fcntl.flock(fh, fcntl.LOCK_EX)
+            self.fhs.append(fh)
 
     def __exit__(self, *a):
-        fcntl.flock(self.fh, fcntl.LOCK_UN)
-        self.fh.close()
+        for fh in reversed(self.fhs):
+            fcntl.flock(fh, fcntl.LOCK_UN)
+            fh.close()
 
 
 def strip_coq_comments(s):
@@ -182,6 +200,10 @@ class Ctx:
                 self.unproved.append(dict(name="forbidden-construct", reason="%s:%d: %s" % b))
         with CoqLock():
             _coq_makefile_nolock()
+            common = [os.path.relpath(f, COQ)[:-2] + ".vo" for f in dep_closure(vfile) if os.path.relpath(f, COQ).startswith("Common" + os.sep)]
+            # also refreshes .Makefile.d (coqdep) under the global lock, so concurrent per-property makes only read it
+            sh("timeout %d make -k -j16 %s" % (timeout, " ".join(common) if common else ".Makefile.d"), cwd=COQ)
+        with CoqLock(files=[f for f in dep_closure(vfile) if not os.path.relpath(f, COQ).startswith("Common" + os.sep)]):
             cmd = "timeout %d make -k -j16 %s.vo" % (timeout, prop_file)
             self.checker_cmds.append("cd coq && coq_makefile -f _CoqProject -o Makefile && make -j16 %s.vo && coqc -Q . ChibiV %s.v  # Print Assumptions parsed" % (prop_file, prop_file))
             r = sh(cmd, cwd=COQ)
@@ -258,7 +280,7 @@ class Ctx:
         bd = os.path.join(OCAML_BUILD, name)
         exv = os.path.join(COQ, "Extract_%s.v" % name)
         drv = os.path.join(ROOT, "ocaml", (driver or (name + "_driver")) + ".ml")
-        with CoqLock():
+        with CoqLock(files=[f for f in dep_closure(exv) if not os.path.relpath(f, COQ).startswith("Common" + os.sep)] + [exv]):
             os.makedirs(bd, exist_ok=True)
             # dependency stamp: hash of every .vo mtime is overkill; hash the sources of coq/ + driver
             h = hashlib.sha256()
@@ -285,7 +307,8 @@ class Ctx:
                 for mod in m.group(1).split():
                     deps.append(mod.replace(".", "/") + ".vo")
             if deps:
-                _coq_makefile_nolock()
+                with CoqLock():
+                    _coq_makefile_nolock()
                 rr = sh("timeout 1500 make -k -j16 " + " ".join(deps), cwd=COQ)
                 if rr.returncode != 0:
                     self.unproved.append(dict(name="extract:" + name, reason="Coq build of the model failed", log=(rr.stdout + rr.stderr)[-3000:]))
